@@ -397,6 +397,30 @@ PROPS = {
             "the documentation tables and Solstat.toml are read by the translator on every run",
         ],
     },
+    "C17": {
+        "theorems": {
+            "Solstat.Props.C17": [
+                "inv_of_fwd", "optInv_of_fwd", "equiv_of_fwd", "equivariant_filterMap",
+                "addressBalance_equivariant", "addressZero_equivariant", "boolEqualsBool_equivariant", "multipleRequire_equivariant",
+                "optimalComparison_equivariant", "shiftMath_equivariant", "solidityKeccak256_equivariant", "solidityMath_equivariant",
+                "unsafeErc20_equivariant", "floatingPragma_equivariant", "divideBeforeMultiply_equivariant", "safeMathCalls_equivariant",
+                "cacheArrayLength_equivariant", "incDecLocs_equivariant", "lines_move_with_tokens", "fileNo_irrelevant",
+            ],
+            "Solstat.Props.MapLoc": ["allNodes_mapLoc", "extract_mapLoc", "mapLoc_comp", "mapLoc_id", "mapLoc_leftInverse", "mapLoc_congr",
+                                     "filterMap_detector_equivariant"],
+            "Solstat.Props.C17Ext": ["loc_infinite", "extend_to_perm", "C17_sample"],
+            "Solstat.Props.C02": ["lineOf_spec", "analyzeLines_spec"],
+        },
+        "obs": [("relayout", [])],
+        "kinds": ["TOKMAP", "RELAY", "STRLIT", "LINES"],
+        "rule": "a case is one (base layout, re-layout, detector): the base layout separates every token by one space; the re-layout inserts random white space, LF/CRLF, line/block/doc comments with code-like text and multi-byte characters between all tokens (pragma directives are copied verbatim: their value is one token); STRLIT cases replace the content of every string literal by code-like text of the same length; distinct by SHA-1 of the request line; non-trivial when the detector flags something in the base layout",
+        "assumptions": [
+            "assumption about the parser, evaluated on every sample (TOKMAP): the re-laid-out text parses to exactly the relocated tree, tree2 = mapLoc rho tree1, with rho the map induced by the token offsets (starts to starts, ends to ends; a location's end may be the start of the following token, an empty range sits between two tokens) and rho injective on the locations of the tree; C17_sample turns that into the hypothesis of the equivariance theorems",
+            "equivariance is proved for 13 detectors and the inc/dec location pass (C17.lean); for the remaining detectors (table- and context-based: constant/immutable/sstore/pack_*/payable/private_*/constructor_order/memory_to_calldata/string_errors/short_revert/selfdestruct/assign_update/safemath import gates) the statement is covered by the correspondence (model = impl on both layouts) and the oracle on every sample, not by a theorem",
+            "string-literal insensitivity (STRLIT) is checked by correspondence and oracle only (same-length replacement so that all offsets stay fixed)",
+            "pragma values are compared as text by the version regex: a re-layout that changes the inside of a pragma directive changes a token, which the property excludes",
+        ],
+    },
     "C18": {
         "theorems": {
             "Solstat.Props.C18": ["run_frame", "run_failure_writes_nothing", "run_writes_render", "old_report_overwritten",
